@@ -1,9 +1,10 @@
 (* Extraction of the executable models to OCaml. Only the directives of ExtrOcamlBasic are used. *)
-From Dht Require Import Base Int160 Order RunMetric.
+From Dht Require Import Base Int160 Order RunMetric Msg Server RunServer.
 Require Import ExtrOcamlBasic.
 Extraction Language OCaml.
 Extraction "model.ml"
   byte_of_N Byte.to_N toN ofN bytes_eqb
   xorl cmp160 bitlen is_zero get_bit set_bit bucket_index_bytes random_in_bucket_bytes distance
   bucket_index shared_prefix_len
-  ap_of_ip cmp_int closer_than closer_cmp run_sset accept_knear run_knear kn_full kn_farthest.
+  ap_of_ip cmp_int closer_than closer_cmp run_sset accept_knear run_knear kn_full kn_farthest
+  benc addr_key srv_step srv_init srv_good srv_bad srv_num_good srv_exported srv_trav_filter.
